@@ -130,6 +130,10 @@ static std::vector<std::string> versionAlphabet(bool small) {
                     if (!*pre) out.insert(a + "." + b + "." + c + "-rc1");
                 }
         }
+    // large (but representable) minor/patch components: a comparison that packs or truncates components shows here
+    for (const char* a : {"0", "1", "2", "10"})
+        for (const char* b : {"0", "1", "999", "1000", "1001", "65536", "2147483647"})
+            for (const char* c : {"0", "1", "999", "1000", "1001", "65536", "2147483647"}) out.insert(std::string(a) + "." + b + "." + c);
     for (const char* g : {"", "v", "abc", ".1", "-1", "1..2", " 1", "v.", "vv1", "1.2.3.4", "01.002.0003", "dev", "unknown", "1.-2", "+1", "nightly", "latest"}) out.insert(g);
     return std::vector<std::string>(out.begin(), out.end());
 }
